@@ -195,9 +195,11 @@ std::string zone_fingerprint(const cctz::time_zone& tz, const std::string& bytes
   std::vector<int64_t> ts;
   if (parse_tzif(bytes, &d, &L)) for (int64_t t : d.times) if (t > -(1LL << 58) && t < (1LL << 58)) ts.push_back(t);
   std::sort(ts.begin(), ts.end());
-  std::vector<int64_t> probes = {0, 1700000000};
+  std::vector<int64_t> probes = {0, 1700000000, -5000000000LL};
   size_t from = ts.size() > 60 ? ts.size() - 60 : 0;
   for (size_t i = from; i < ts.size(); ++i) { probes.push_back(ts[i] - 1); probes.push_back(ts[i]); }
+  // ... and the whole table, beginning and middle included: up to 150 more stored transitions, evenly spread
+  { size_t step = from > 150 ? from / 150 : 1; for (size_t i = 0; i < from; i += step) { probes.push_back(ts[i] - 1); probes.push_back(ts[i]); } }
   int64_t last = ts.empty() ? 0 : ts.back();
   for (int k = 0; k < 160; ++k) probes.push_back(last + k * 9 * 86400LL + 3601);      // four years after the table, every nine days
   for (int k = 1; k <= 12; ++k) probes.push_back(last + k * 400LL * 31556952LL / 12);  // and across the 400-year seam
@@ -212,7 +214,17 @@ std::string zone_fingerprint(const cctz::time_zone& tz, const std::string& bytes
       if (t <= q.a) break;
       q.a = t;
     } }
+  // the other direction and the other scan, a formatted and a parsed time, and what the zone says about itself
+  for (size_t i = 0; i < ts.size(); i += (ts.size() > 40 ? ts.size() / 40 : 1)) {
+    Civil c = civil_from_unix(ts[i] + 7200);
+    Query q; q.k = Q_LOOKUP_CS; q.a = c.y; q.b = pack_civil(c.m, c.d, c.hh, c.mm, c.ss);
+    h = hash_str(run_query(tz, q), h);
+    q.k = Q_PREV; q.a = ts[i] + 1; h = hash_str(run_query(tz, q), h);
+  }
+  { Query q; q.k = Q_FORMAT; q.a = last + 86400 * 200; q.fmt = 0; h = hash_str(run_query(tz, q), h);
+    q.k = Q_PARSE; q.fmt = 1; q.s = "2011-03-13 02:30:00"; h = hash_str(run_query(tz, q), h); }
   h = hash_str(tz.description(), h);
+  h = hash_str(tz.version(), h);
   return hex64(h);
 }
 
@@ -235,6 +247,19 @@ const std::vector<std::vector<std::string>>& footer_groups() {
   for (const std::string& n : shipped_names()) {
     TzData d; TzLayout L;
     if (parse_tzif(shipped_bytes(n), &d, &L)) by[d.footer].push_back(n);
+  }
+  for (auto& kv : by) if (kv.second.size() >= 2) groups.push_back(kv.second);
+  return groups;
+}
+const std::vector<std::vector<std::string>>& abbr_groups() {
+  static std::vector<std::vector<std::string>> groups;
+  if (!groups.empty()) return groups;
+  std::map<std::string, std::vector<std::string>> by;
+  for (const std::string& n : shipped_names()) {
+    TzData d; TzLayout L;
+    if (!parse_tzif(shipped_bytes(n), &d, &L)) continue;
+    size_t i = 0;
+    while (i < d.abbrs.size()) { std::string a = d.abbrs.c_str() + i; if (!a.empty()) { auto& v = by[a]; if (v.empty() || v.back() != n) v.push_back(n); } i += a.size() + 1; }
   }
   for (auto& kv : by) if (kv.second.size() >= 2) groups.push_back(kv.second);
   return groups;
@@ -304,6 +329,14 @@ C14aCase gen_c14a(const std::string& part, const std::string& tier, uint64_t see
     const auto& groups = footer_groups();
     std::vector<std::string> g = groups.empty() ? std::vector<std::string>() : groups[r.below(groups.size())];
     if (r.chance(0.5) && !groups.empty()) { size_t big = 0; for (size_t i = 0; i < groups.size(); ++i) if (groups[i].size() > groups[big].size()) big = i; if (r.chance(0.5)) g = groups[big]; }
+    uint64_t how = r.below(100);
+    if (how < 20) {          // ... or zones that share an abbreviation (EST, CET, LMT, +03 ...), whatever their footers
+      const auto& ag = abbr_groups();
+      if (!ag.empty()) g = ag[r.below(ag.size())];
+    } else if (how < 35) {   // ... or any ten zones
+      g.clear();
+      for (int i = 0; i < 10; ++i) g.push_back(r.pick(shipped_names()));
+    }
     for (size_t i = g.size(); i > 1; --i) std::swap(g[i - 1], g[r.below(i)]);
     if (g.size() > 8) g.resize(8);
     for (const std::string& n : g) c.order_bases.push_back("shipped:" + n);
